@@ -354,6 +354,36 @@ def run(prog, R):
         psg = [p for p in SymExec(prog, sg).paths() if "__diverged__" not in p.env]
         straight = len(psg) == 1 and not any(c[0] == "switch" for c in psg[0].conds) and "flat_map" in show(deep_strip(psg[0].env.get(0))) and "collect" in show(deep_strip(psg[0].env.get(0)))
         allbind = cl is not None and all(any(c[0].endswith("SymbolTable::new_binding") for c in p.calls) for p in SymExec(prog, cl).paths() if "__diverged__" not in p.env)
+        if cl is None:
+            # the same table walked by two nested `for` loops instead of flat_map/filter: every name taken from the inner
+            # iterator is bound before the next one is taken, with Type::Gate(arity[0], arity[1])
+            import re as _re
+            pl_ = [p for p in SymExec(prog, sg, max_visits=2, max_paths=4000).paths() if "__diverged__" not in p.env or "__cut__" in p.env]
+            okseq, nb_, tys_ = bool(pl_), 0, set()
+            for p in pl_:
+                seq = []
+                for c in p.calls:
+                    if c[0].endswith("Iterator>::next"):
+                        ra = json.dumps(sg.blocks[c[2]].term.get("rargs"))
+                        seq.append("inner" if ra.startswith('["&str"') else "outer")
+                    elif c[0].endswith("SymbolTable::new_binding"):
+                        seq.append("bind")
+                        nb_ += 1
+                        tys_.add(_re.sub(r"\s+", " ", show(deep_strip(c[1][2]))))
+                for i_, x_ in enumerate(seq):
+                    if x_ == "bind" and (i_ == 0 or seq[i_ - 1] != "inner"):
+                        okseq = False
+                    if x_ == "inner" and i_ + 1 < len(seq) and seq[i_ + 1] not in ("bind", "outer"):
+                        okseq = False          # a name was taken and the next name was taken without binding it
+            # the two components of every bound type are the arity array's elements 0 (parameters) and 1 (qubits)
+            okty = bool(tys_)
+            for t_ in tys_:
+                m_ = _re.fullmatch(r"Type::Gate\((.*)\)", t_)
+                a_ = t_[len("Type::Gate("):-1]
+                idx_ = [int(x) for x in _re.findall(r"'cindex', (\d+)\)", a_)]
+                okty = okty and bool(m_) and idx_ == [0, 1] and a_.count("Iterator>::next") >= 2
+            R.ob("C09.4-stdgates", "bound as Type::Gate(n_cl, n_qu)", okty and nb_ >= 1, sg.at, f"loop form: {nb_} binding call(s) on {len(pl_)} paths; type {sorted(tys_)[:1]}")
+            straight, allbind = okseq, okseq
         R.ob("C09.4-stdgates", "every gate of the table is bound on every call (no conditional skip)", straight and allbind, sg.at,
              f"{len(psg)} returning path(s) of standard_library_gates, conditions on them: {sum(1 for p in psg for c in p.conds if c[0] == 'switch')}; filter closure binds on every path: {allbind}")
     gc = prog.body("oq3_semantics::symbols::SymbolTable::gates::{closure#0}")
